@@ -71,9 +71,12 @@ func Normalize(v interface{}) interface{} {
 		}
 		return out
 	}
-	oor("cannot normalise %T", v)
-	return nil
+	return Opaque{fmt.Sprintf("%T", v)}
 }
+
+// Opaque stands for a context value the model knows nothing about except that it
+// is not a number, string, boolean, null, array or hash (e.g. a struct).
+type Opaque struct{ Type string }
 
 // FmtNum prints a number the way the language prints it.
 func FmtNum(f float64) string {
